@@ -1,0 +1,57 @@
+//go:build verif
+
+package verifier
+
+// Read-only accessors used only by the external verification harness (build
+// tag "verif"). They expose the adjacency that the public API hides.
+
+// VerifEdgeView describes one edge of the graph.
+type VerifEdgeView struct {
+	Edge   *GraphEdge
+	Issuer *GraphNode // nil when the edge has no issuer node
+	Child  *GraphNode
+	Root   bool
+}
+
+// VerifEdge returns the adjacency of e.
+func VerifEdge(e *GraphEdge) VerifEdgeView {
+	return VerifEdgeView{Edge: e, Issuer: e.issuer, Child: e.child, Root: e.root}
+}
+
+// VerifNodeChildren returns, per child node, the edges n has issued.
+func VerifNodeChildren(n *GraphNode) map[*GraphNode][]*GraphEdge {
+	out := make(map[*GraphNode][]*GraphEdge)
+	for _, set := range n.childrenBySubjectAndKey {
+		for _, e := range set.Edges() {
+			out[e.child] = append(out[e.child], e)
+		}
+	}
+	return out
+}
+
+// VerifNodeParents returns, per issuer node, the edges that certify n.
+func VerifNodeParents(n *GraphNode) map[*GraphNode][]*GraphEdge {
+	out := make(map[*GraphNode][]*GraphEdge)
+	for _, set := range n.parentsBySubjectAndKey {
+		for _, e := range set.Edges() {
+			out[e.issuer] = append(out[e.issuer], e)
+		}
+	}
+	return out
+}
+
+// VerifNodeParentKeys returns the number of entries of n's parent index
+// (including empty sets).
+func VerifNodeIndexSizes(n *GraphNode) (children, parents int) {
+	return len(n.childrenBySubjectAndKey), len(n.parentsBySubjectAndKey)
+}
+
+// VerifDangling returns the edges recorded as lacking an issuer node, keyed by
+// raw issuer name.
+func VerifDangling(g *Graph) map[string][]*GraphEdge {
+	out := make(map[string][]*GraphEdge)
+	for k, set := range g.missingIssuerNode {
+		out[k] = set.Edges()
+	}
+	return out
+}
